@@ -720,6 +720,16 @@ func report(w *World, obs []*Obligation, reports []*funcReport, toolErrors, trus
 			"goroutines, channel operations and select are not given interleaving semantics",
 			"termination is not proved except where a decreases clause is discharged",
 			"axioms assumed: " + strings.Join(axNames, ", "),
+			"byte strings have no extensionality axiom: equalities of byte strings are proved structurally or pointwise",
+			"one thread at a time: a function is verified as if nothing else ran between its critical sections; state guarded by a lock is not havoced when the lock is re-acquired (lock, wait/notify, lock-order and send disciplines are checked instead)",
+			"uncontracted callees are lock-balanced (they return with the caller's locks as they found them) and a callee that may observe cancellation lets any context become cancelled",
+			"a package-level map initialised by a composite literal with constant keys and never written outside its initialiser has the content of its literal (read from the working tree on every run)",
+			"identifiers of a contract that no longer exist in the code are bound by position from spec/sigs.json (every obligation is still generated from, and checked against, the current code)",
+		}
+		for _, n := range w.NotesList() {
+			if strings.HasPrefix(n, "ASSUMED") || strings.HasPrefix(n, "policy ") || strings.HasPrefix(n, "vacuity:") || strings.HasPrefix(n, "contract of ") || strings.HasPrefix(n, "constant table") {
+				assumptions = append(assumptions, n)
+			}
 		}
 		if rc.notDecided != "" {
 			if data, err := os.ReadFile(rc.notDecided); err == nil {
